@@ -658,6 +658,7 @@ struct SObs {
     app_rx: usize,
     server_finished_sent: bool,
     finale_sent: bool,
+    hvr_sent: bool,
     end_ms: u64,
 }
 
@@ -667,6 +668,10 @@ fn run_scripted(script: &[Step], fp: Fp, seed: u64) -> Option<SObs> {
 }
 
 fn run_scripted_f(script: &[Step], fp: Fp, seed: u64, finale: Finale) -> Option<SObs> {
+    run_scripted_c(script, fp, seed, finale, false)
+}
+
+fn run_scripted_c(script: &[Step], fp: Fp, seed: u64, finale: Finale, cookie: bool) -> Option<SObs> {
     let script = script.to_vec();
     sim::run_with_watchdog(seed, Duration::from_secs(30), move || {
         Box::pin(async move {
@@ -676,7 +681,7 @@ fn run_scripted_f(script: &[Step], fp: Fp, seed: u64, finale: Finale) -> Option<
             let cfg_a = EndCfg { with_sctp: false, channels: vec![], expected_fingerprint: fp_of(fp, &certs.b), rtc: sim::default_rtc() };
             let mut a = sim::mk_end(Side::A, certs.a.clone(), net_tx.clone(), &cfg_a).await;
             drop(net_tx);
-            let mut srv = ScriptedServer::new(&certs.x.private_key, script).with_honest_key(&certs.b.private_key).with_finale(finale);
+            let mut srv = ScriptedServer::new(&certs.x.private_key, script).with_honest_key(&certs.b.private_key).with_finale(finale).with_cookie_exchange(cookie);
             let mut buf = Vec::new();
             let mut quiet: Option<u64> = None;
             loop {
@@ -713,6 +718,7 @@ fn run_scripted_f(script: &[Step], fp: Fp, seed: u64, finale: Finale) -> Option<
             }
             o.server_finished_sent = srv.finished_sent;
             o.finale_sent = srv.finale_sent;
+            o.hvr_sent = srv.hvr_sent;
             o.end_ms = now_ms(start);
             for h in a.tasks.drain(..) {
                 h.abort();
@@ -825,6 +831,10 @@ fn main() {
         let v: serde_json::Value = serde_json::from_str(&std::fs::read_to_string(path).unwrap_or_else(|e| vh::machinery_failure(&format!("{e}")))).unwrap();
         if let Some(name) = v["replay"]["scripted"].as_str() {
             let list = scripts();
+            let (cookie, name) = match name.strip_prefix("hvr+") {
+                Some(n) => (true, n),
+                None => (false, name),
+            };
             let gen_script = script_from_name(name);
             let generated = gen_script.is_some();
             let script: &Vec<Step> = match &gen_script {
@@ -837,7 +847,7 @@ fn main() {
                 _ => Fp::Wrong,
             };
             let finale = v["replay"]["finale"].as_u64().map(|i| FINALES[i as usize]).unwrap_or(Finale::Proper);
-            let o = run_scripted_f(script, fp, cli.seed, finale);
+            let o = run_scripted_c(script, fp, cli.seed, finale, cookie);
             let vs = o.as_ref().map(|o| if generated { judge_generated(name, script, fp, o) } else { judge_scripted(name, script, fp, o) });
             println!("{o:?}\n verdicts={vs:?}");
             std::process::exit(if vs.map_or(true, |v| !v.is_empty()) { 1 } else { 0 });
@@ -1003,6 +1013,33 @@ fn main() {
     }
     rep.set("forged_ending_histories", fin_cases.len() as u64);
     rep.set("forged_endings_delivered_after_client_key_exchange", finales_delivered);
+    // the same attacker behind a cookie exchange: the first ClientHello is answered with a
+    // HelloVerifyRequest, the scripted flight follows the second ClientHello. Whatever the client forgets
+    // on that restart, it must not forget whom it expects.
+    let mut ck_list: Vec<(String, Vec<Step>)> = scripts().into_iter().map(|(n, s)| (format!("hvr+{n}"), s)).collect();
+    ck_list.extend(generated_scripts(GEN_LETTERS.len(), 2, 1).into_iter().map(|(n, s)| (format!("hvr+{n}"), s)));
+    let ck_cases: Vec<(usize, Fp)> = (0..ck_list.len()).flat_map(|i| [Fp::Correct, Fp::Wrong].into_iter().map(move |f| (i, f))).collect();
+    let ck_results: Vec<((usize, Fp), Option<SObs>)> = ck_cases.par_iter().map(|c| (*c, run_scripted_c(&ck_list[c.0].1, c.1, cli.seed, Finale::Proper, true))).collect();
+    let (mut ck_connected, mut ck_hvr) = (0u64, 0u64);
+    for ((i, fp), o) in &ck_results {
+        let (name, script) = &ck_list[*i];
+        let replay = json!({"scripted": name, "fp_client_expects": format!("{fp:?}")});
+        let Some(o) = o else {
+            rep.violation(vh::Violation { signature: format!("livelock;server-script={name}"), detail: "watchdog fired".into(), replay });
+            continue;
+        };
+        ck_connected += u64::from(o.state == "Connected");
+        ck_hvr += u64::from(o.hvr_sent);
+        outcomes.insert(format!("cookie|{}|{}|{}", o.state, o.exporter_ok, o.app_rx));
+        for (sig, detail) in judge_generated(name, script, *fp, o) {
+            rep.violation(vh::Violation { signature: sig, detail, replay: replay.clone() });
+        }
+    }
+    if ck_hvr != ck_cases.len() as u64 || (ck_connected == 0 && rep.violation_count() == 0) {
+        vh::machinery_failure(&format!("cookie-exchange block is vacuous: HelloVerifyRequest sent in {ck_hvr} of {} histories, {ck_connected} connected (a client expecting the attacker's own certificate must get through the cookie exchange)", ck_cases.len()));
+    }
+    rep.set("cookie_exchange_histories", ck_cases.len() as u64);
+    rep.set("cookie_exchange_histories_connected_to_the_expected_attacker", ck_connected);
     if gen_connected == 0 || gen_failed == 0 {
         vh::machinery_failure(&format!("generated script space is vacuous: connected={gen_connected} failed={gen_failed}"));
     }
@@ -1015,7 +1052,7 @@ fn main() {
         vh::machinery_failure("scripted attacker self-test failed: a client expecting the attacker's own fingerprint did not connect to it");
     }
     rep.set("scripted_server_histories", sc_cases.len() as u64);
-    let total = scenarios.len() as u64 + sc_cases.len() as u64 + gen_cases.len() as u64 + fin_cases.len() as u64;
+    let total = scenarios.len() as u64 + sc_cases.len() as u64 + gen_cases.len() as u64 + fin_cases.len() as u64 + ck_cases.len() as u64;
     rep.set("states", total);
     rep.set("transitions", results.iter().map(|(_, o)| o.as_ref().map(|o| o.tampered as u64 + 1).unwrap_or(0)).sum::<u64>());
     rep.set("traces_validated_against_impl", total);
